@@ -186,6 +186,29 @@ func c01Gen(tier string, r *rand.Rand) []Case {
 	}
 	mk("key-aggregated", c01In{KeyKind: "aggregated", Parts: []string{hx(fixed(a, 32)), hx(fixed(b, 32))}, Hasher: hasherSpec{Kind: "kmac", Tag: "agg"}, Msg: hx([]byte("agg")), Derive: append(append([]string{}, baseDerive...), flips(3)...)})
 	mk("key-aggregated-zero", c01In{KeyKind: "aggregated", Parts: []string{hx(fixed(a, 32)), hx(fixed(new(big.Int).Sub(blsR, a), 32))}, Hasher: hasherSpec{Kind: "kmac", Tag: "agg"}, Msg: hx([]byte("agg0")), Derive: []string{"valid", "infinity", "plusT", "otherkey"}})
+	// limb-sparse scalars (a 64-bit, 128-bit or 192-bit low part that is zero; a single non-zero limb; all
+	// limbs equal): a zero test or a comparison that looks at one limb only treats them as 0 or as equal.
+	// Each is used as a decoded key and as the SUM of two ordinary keys (aggregation never decodes it).
+	{
+		one := big.NewInt(1)
+		sparse := []*big.Int{}
+		for _, sh := range []uint{64, 128, 192} {
+			sparse = append(sparse, new(big.Int).Lsh(one, sh), new(big.Int).Lsh(big.NewInt(int64(3+r.IntN(1000))), sh))
+		}
+		sparse = append(sparse, new(big.Int).Lsh(new(big.Int).SetUint64(r.Uint64()|1), 64), new(big.Int).Lsh(big.NewInt(1), 32),
+			new(big.Int).Add(new(big.Int).Lsh(one, 192), one), new(big.Int).Sub(new(big.Int).Lsh(one, 64), one))
+		for i, k := range sparse {
+			k.Mod(k, blsR)
+			d := append([]string{}, baseDerive...)
+			mk("key-limb-sparse", c01In{KeyKind: "scalar", Scalar: hx(fixed(k, 32)), Hasher: hasherSpec{Kind: "kmac", Tag: "sparse"}, Msg: hx(msgs[i%len(msgs)]), Derive: d})
+			x := new(big.Int).Mod(new(big.Int).SetBytes(rbytes(r, 32)), blsR)
+			if x.Sign() == 0 || x.Cmp(k) == 0 {
+				x.SetInt64(11)
+			}
+			y := new(big.Int).Mod(new(big.Int).Sub(k, x), blsR)
+			mk("key-limb-sparse-agg", c01In{KeyKind: "aggregated", Parts: []string{hx(fixed(x, 32)), hx(fixed(y, 32))}, Hasher: hasherSpec{Kind: "kmac", Tag: "sparse"}, Msg: hx(msgs[(i+1)%len(msgs)]), Derive: d})
+		}
+	}
 	// identity public key
 	// the identity public key obtained in every way the package can produce one (the cached identity
 	// flag must be right for each of them)
